@@ -89,6 +89,10 @@ pub fn data_elements_to_string(elements: &Vec<DataElement>) -> String {
     elements
         .iter()
         .map(|element| match element {
+            // A string that contains a double quote can only have been written
+            // unquoted (there is no way to escape a quote inside a quoted item),
+            // so it has to be listed unquoted to read back as the same item.
+            DataElement::String(string) if string.contains('"') => string.to_string(),
             DataElement::String(string) => format!("\"{}\"", string),
             DataElement::Number(number) => number.to_string(),
         })
